@@ -12,6 +12,8 @@ SYMS = {
     "E1": {"op": "provide", "stage": "enabling", "input": {"enabled": True}},
     "E0": {"op": "provide", "stage": "enabling", "input": {"enabled": False}},
     "S": {"op": "provide", "stage": "starting", "input": {"input": {"tag": "T"}, "closure_wait_timeout": 30}},
+    "S0": {"op": "provide", "stage": "starting", "input": {"input": {"tag": "T"}, "closure_wait_timeout": 0}},
+    "Sd": {"op": "provide", "stage": "starting", "input": {"input": {"tag": "T"}}},
     "Sbad": {"op": "provide", "stage": "starting", "input": {"input": {"n": 1}}, "invalid": True},
     "X": {"op": "provide", "stage": "cancelled", "input": {"stop_if": True}},
     "X0": {"op": "provide", "stage": "cancelled", "input": {"stop_if": False}},
@@ -39,6 +41,9 @@ SCRIPTS = {
     # the connection stops taking writes once the execution has begun (signals can no longer be delivered)
     "deaf-after-start": {"deploys": [{}, {"write_err_after_start": True}], "exec": {"outcome": "hang", "on_cancel": "error"}},
     "slow-deploy": {"deploys": [{}, {"delay_ms": 25}]},
+    # the plugin deployed for the run is a later release that declares and returns an output the step was not prepared with
+    "later-release-new-output": {"deploys": [{}, {"schema": "more-outputs"}], "exec": {"outcome": "undeclared"}},
+    "later-release-grown": {"deploys": [{}, {"schema": "grown"}]},
 }
 
 
@@ -157,6 +162,11 @@ def run(check):
     for seq in (["D", "E1", "S", "Z", "X", "Z", "X", "Z", "C"], ["D", "E1", "S", "Z", "X", "C"], ["D", "E1", "S", "Z", "C", "F"], ["D", "E1", "S", "Z", "F"],
                 ["D", "E1", "S", "Z", "X", "X0", "F"], ["D", "E1", "S", "Z", "X", "Q", "Z", "Q", "C"], ["D", "E1", "S", "Z", "X", "Z", "Z", "Z", "Z", "F"]):
         for sn in ("deaf-after-start", "hang-obey", "hang-ignore", "nocancel-hang"):
+            add(sn, seq)
+            # the same with a closure timeout of zero and with the default one
+            add(sn, ["S0" if x == "S" else x for x in seq])
+    for seq in (["D", "E1", "Sd", "Z", "C"], ["D", "E1", "Sd", "Z", "X", "Z", "F"], ["D", "E1", "S", "Z", "Z", "C"], ["D", "E1", "S0", "Z", "Z", "F"], ["D", "E1", "S"], ["Dc", "E1", "S", "Z", "Z"]):
+        for sn in ("later-release-new-output", "later-release-grown", "success", "hang-obey", "undeclared"):
             add(sn, seq)
     for i in range(check.pick(600, 8000)):
         rng = random.Random(derive_seed(check.seed, "c12-long", i))
